@@ -12,7 +12,8 @@ Hand-written, executable, import-free.  Three parts:
   `is_in_scope`, the verdict `keep | offer` (offer = `try_subproc_toks` is called on the node; whether
   that re-parse succeeds is the lexer's business and not modelled) and `builtin` for the
   `__xonsh__.builtin_cmd` rewrite.
-  The code as it exists is `Fixes.none`.  Every flag of `Fixes` switches ONE mechanism to a repaired
+  `Fixes.none` is the code as it was found, `Fixes.all` the code after the nine fix commits to xonsh/parsers/ast.py (the
+  harness selects the variant per mechanism by replaying the findings' witnesses).  Every flag of `Fixes` switches ONE mechanism to a repaired
   behaviour; they exist so that (a) the theorems can say exactly which mechanism breaks the property and
   (b) the harness can attribute a failure on the real code to a mechanism (the failure disappears when
   exactly that flag is set).
@@ -252,7 +253,7 @@ def assignAdds : Tgts → List Name
 
 /-! ## the transformer -/
 
-/-- one flag per repaired mechanism; `Fixes.none` is the code as it is -/
+/-- one flag per repaired mechanism; `Fixes.none` is the code as it was found, `Fixes.all` the code as repaired -/
 structure Fixes where
   dotted : Bool      -- `import a.b` records `a` (the code records the string "a.b")
   walrus : Bool      -- a statement's walrus targets are recorded on entry (the code records a walrus only where generic_visit reaches it)
